@@ -320,7 +320,7 @@ class Cas:
             keep_id: Keep the XMI id of `annotation` if true, else generate a new one.
 
         """
-        if not self._lenient and not self._typesystem.contains_type(annotation.type.name):
+        if not self._lenient and not self._typesystem.contains_type(annotation.type.name, True):
             msg = f"Typesystem of CAS does not contain type [{annotation.type.name}]. "
             msg += "Either add the type to the type system or specify `lenient=True` when creating the CAS."
             raise RuntimeError(msg)
